@@ -313,6 +313,16 @@ func (g *gen) next() op {
 		}
 		o.I = g.holder(bal)
 		o.R = g.anyAcc()
+		if o.Direct && r.Chance(1, 3) {
+			// the keeper called with the module's own EVM address as initiator (no transaction can
+			// do that): only the balance-delta check of LockERC20Tokens stands in the way
+			o.I = accM
+			for c := 0; c < nPair; c++ {
+				if w.enabled[c] && s.erc[c][accM].Sign() > 0 && r.Chance(2, 3) {
+					o.C = c
+				}
+			}
+		}
 		unit := big.NewInt(1)
 		if o.C < nPair && isBep3[pairDenom[o.C]] {
 			unit = k10
